@@ -145,6 +145,28 @@ func (w *fuzzWitness) ingress() rfix.Ingress {
 
 // ---- violations ----
 
+// panicFunc returns the name of the innermost function of the repository
+// under test on a panic stack (e.g. "router.(*scionPacketProcessor).processBFD",
+// "pkg/addr.Host.IP"): a key that does not move when lines do.
+func panicFunc(stack string) string {
+	root := os.Getenv("VERIF_REPO")
+	if root == "" {
+		root = "/repo"
+	}
+	lines := strings.Split(stack, "\n")
+	for i, l := range lines {
+		if i == 0 || !strings.HasPrefix(strings.TrimSpace(l), root+"/") {
+			continue
+		}
+		fn := strings.TrimSpace(lines[i-1])
+		if j := strings.LastIndex(fn, "("); j > 0 && strings.HasSuffix(fn, ")") {
+			fn = fn[:j]
+		}
+		return strings.TrimPrefix(fn, "github.com/scionproto/scion/")
+	}
+	return "unknown"
+}
+
 var (
 	violMu   sync.Mutex
 	violSeen = map[string]int{}
@@ -189,8 +211,13 @@ type lastInput struct {
 func openLastInput(r *mon.Run, workers int) *lastInput {
 	dir := filepath.Join(mon.VerifDir(), "logs")
 	_ = os.MkdirAll(dir, 0o755)
-	p := filepath.Join(dir, r.ID+".lastinput.bin")
-	f, err := os.OpenFile(p, os.O_RDWR|os.O_CREATE|os.O_TRUNC, 0o644)
+	// one file per (property, tier, tree): concurrent runs must not share a mapping
+	name := r.ID + "." + r.Tier
+	if root := os.Getenv("VERIF_REPO"); root != "" && root != "/repo" {
+		name += ".scratch"
+	}
+	p := filepath.Join(dir, name+".lastinput.bin")
+	f, err := os.OpenFile(p, os.O_RDWR|os.O_CREATE, 0o644)
 	if err != nil {
 		return &lastInput{}
 	}
